@@ -1045,8 +1045,11 @@ class Engine:
             return
         base, hlen = self.extent
         cond = ("le", off + n - hlen)
-        key = "extent|%s" % self.site_key(fr, self.cur_block if self.cur_term is None else self.cur_term, "extent:" + what)
+        sk = self.site_key(fr, self.cur_block if self.cur_term is None else self.cur_term, "extent:" + what)
+        key = "extent|%s" % sk
         self.oblige(st, fr, key, "extent", self.cur_line or fr.body.line, cond, "always")
+        # the dual observation (not an obligation): this read reaches the end of the element on every visit
+        self.oblige(st, fr, "cover|%s" % sk, "cover", self.cur_line or fr.body.line, ("le", hlen - off - n), "info")
 
     def extent_escape(self, st, fr, v, what):
         """A slice / iterator over the extent-limited input leaves the analysed code (external reader, return value)."""
